@@ -355,6 +355,8 @@ impl Ast {
             if let Node::Module(module_ptr) = node {
                 let scoped_identifier = module_ptr.borrow().parser_scoped_identifier();
                 self.lookup_table.entry(scoped_identifier).or_insert(index);
+            } else if let Node::Primitive(primitive_ptr) = node {
+                self.lookup_table.insert(primitive_ptr.borrow().kind().to_owned(), index);
             } else if let Ok(entity) = <&dyn Entity>::try_from(node) {
                 self.lookup_table.insert(entity.parser_scoped_identifier(), index);
             }
